@@ -379,7 +379,7 @@ def kill (m : AMod) : AMod := { m with alive := false, connected := false }
 
 def killIn (l : List Nat) (m : AMod) : AMod := if l.contains m.uid then kill m else m
 
-theorem applyDepartures_eq (a : A) (evs : List Ev) :
+theorem applyDepartures_map (a : A) (evs : List Ev) :
     applyDepartures a evs = { a with mods := a.mods.map (killIn (closes evs)) } := by
   unfold applyDepartures
   generalize closes evs = l
@@ -408,11 +408,11 @@ theorem applyDepartures_eq (a : A) (evs : List Ev) :
 theorem applyDepartures_core (a : A) (evs : List Ev) :
     (applyDepartures a evs).buf = a.buf ∧ (applyDepartures a evs).fail = a.fail ∧ (applyDepartures a evs).w = a.w ∧
     (applyDepartures a evs).nAccepted = a.nAccepted ∧ (applyDepartures a evs).errs = a.errs := by
-  rw [applyDepartures_eq]; exact ⟨rfl, rfl, rfl, rfl, rfl⟩
+  rw [applyDepartures_map]; exact ⟨rfl, rfl, rfl, rfl, rfl⟩
 
 theorem applyDepartures_uids (a : A) (evs : List Ev) :
     (applyDepartures a evs).mods.map (·.uid) = a.mods.map (·.uid) := by
-  rw [applyDepartures_eq]
+  rw [applyDepartures_map]
   simp only [List.map_map]
   apply List.map_congr_left
   intro m _
@@ -421,7 +421,7 @@ theorem applyDepartures_uids (a : A) (evs : List Ev) :
 
 theorem applyDepartures_get (a : A) (evs : List Ev) (v : Nat) :
     (applyDepartures a evs).get v = (a.get v).map (killIn (closes evs)) := by
-  rw [applyDepartures_eq]
+  rw [applyDepartures_map]
   unfold A.get
   exact aget_map _ _ (by intro m; unfold killIn; split <;> rfl) v
 
@@ -462,7 +462,7 @@ theorem applyDepartures_live (a : A) (evs : List Ev) (v : Nat) :
 /-- `applyDepartures` commutes with error extensions -/
 theorem applyDepartures_coreExt {T : List String} {a a' : A} (h : CoreExt T a a') (evs : List Ev) :
     CoreExt T (applyDepartures a evs) (applyDepartures a' evs) := by
-  rw [applyDepartures_eq, applyDepartures_eq]
+  rw [applyDepartures_map, applyDepartures_map]
   exact ⟨by simp [h.mods], h.buf, h.fail, h.w, h.nAccepted, h.errs⟩
 
 
@@ -586,7 +586,7 @@ theorem segment_broken (cfg : Cfg) (a : A) (rd : Read) (evs : List Ev) (m : AMod
   · rw [afterBuf_eq]; exact errExt_chk _ _ _ _ _ (by simp)
 
 /-- the abstract meaning of SUBSCRIBE / RESUME (`add`) and UNSUBSCRIBE / PAUSE of type `ty` -/
-def subUpd (cfg : Cfg) (ty : Int) (add : Bool) (m : AMod) : AMod :=
+def subUpdA (cfg : Cfg) (ty : Int) (add : Bool) (m : AMod) : AMod :=
   if ty == cfg.allTypes then (if add then { m with subAll := true, types := [] } else { m with subAll := false, types := [] })
   else if m.subAll then m
   else if add then { m with types := if m.types.contains ty then m.types else m.types ++ [ty] }
@@ -639,7 +639,7 @@ theorem segment_sub
             rd.h.mtype == cfg.mtPause) = true) :
     segment cfg a rd evs =
       applyDepartures (checkDepartures cfg (checkAcks cfg
-        ((afterBuf cfg a rd).upd rd.uid (subUpd cfg (bufI32 (afterBuf cfg a rd).buf 0)
+        ((afterBuf cfg a rd).upd rd.uid (subUpdA cfg (bufI32 (afterBuf cfg a rd).buf 0)
           (rd.h.mtype == cfg.mtSubscribe || rd.h.mtype == cfg.mtResume))) rd.uid true evs) none evs) evs := by
   unfold segment
   unfold brokenRd at hb
